@@ -170,89 +170,123 @@ def furthestBlockOf (below : List NodeId) : M (Option NodeId) := do
     | none => pure ()
   pure r
 
+/-- steps 12–20 of an iteration of the outer loop: there is a furthest block -/
+def aaaRelocate (formatting : NodeId) (fname : Str) (fattrs : List (Str × Str)) (furthest : NodeId) : M Unit := do
+  let s ← get
+  -- 12. common ancestor: the element immediately above the formatting element in the stack
+  let commonAncestor ← (do
+    match ← aboveInStack formatting with
+    | some c => pure c
+    | none => fail "adoption-agency: no common ancestor")
+  -- 13. bookmark: position of the formatting element in the list (`none`)
+  -- 14. inner loop
+  let up ← (do
+    match ← aboveInStack furthest with
+    | some u => pure u
+    | none => fail "adoption-agency: nothing above furthest block")
+  let (lastNode, bookmark) ←
+    aaaInner formatting furthest commonAncestor (s.stack.length + 2) 0 up furthest none
+  -- 15. insert last node at the appropriate place, with common ancestor as override target
+  let loc ← appropriatePlace (some commonAncestor)
+  insertNode loc.parent loc.before lastNode
+  -- 16. create an element for the token of the formatting element (intended parent: furthest block)
+  let el ← createElement .html fname (plainAttrs fattrs)
+  -- 17. move all children of furthest block to the new element
+  let kids := (← getNode furthest).children
+  for k in kids do appendNode el k
+  -- 18. append the new element to furthest block
+  appendNode furthest el
+  -- 19. remove the formatting element from the list, insert the new element at the bookmark
+  let s ← get
+  let newEntry := AfeEntry.elem el fname fattrs
+  let afe' :=
+    match bookmark with
+    | none =>
+      -- bookmark never moved: the position the formatting element had
+      s.afe.map fun e => if e.node? == some formatting then newEntry else e
+    | some after =>
+      let l := s.afe.filter fun e => e.node? != some formatting
+      if s.dev.aaaBookmarkStale then
+        -- NON-STANDARD (Dev): index computed before the removal, used after it
+        let pos := ((afeIndexOf s.afe after).getD 0) + 1
+        l.take pos ++ [newEntry] ++ l.drop pos
+      else l.flatMap fun e => if e.node? == some after then [e, newEntry] else [e]
+  -- 20. remove the formatting element from the stack, insert the new element immediately
+  -- below the position of furthest block
+  let stack' := (s.stack.filter (· != formatting)).flatMap fun x =>
+    if x == furthest then [el, x] else [x]
+  set { s with afe := afe', stack := stack' }
+
+/-- step 6: the formatting element = the last element in the list after the last marker with the tag name -/
+def aaaFormattingElement (subject : Str) : M (Option (NodeId × Str × List (Str × Str))) := do
+  let s ← get
+  let cand := (afterLastMarker s.afe).reverse.find? fun e =>
+    match e with
+    | .elem _ n _ => n == subject
+    | .marker => false
+  pure (match cand with
+    | some (.elem n nm a) => some (n, nm, a)
+    | _ => none)
+
+/-- how an iteration of the outer loop ends -/
+inductive AaaResult where
+  /-- return -/
+  | done
+  /-- return and act as described in the "any other end tag" entry -/
+  | otherEndTag
+  /-- step 21: jump back to the outer loop -/
+  | again
+
+/-- steps 6–20 of one iteration of the outer loop -/
+def aaaIteration (subject : Str) : M AaaResult := do
+  match ← aaaFormattingElement subject with
+  | none => pure .otherEndTag                                   -- 6. no formatting element
+  | some (formatting, fname, fattrs) =>
+    let s ← get
+    -- 7. not in the stack: parse error, remove from the list, return
+    if !(s.stack.contains formatting) then do
+      removeFromAfe formatting
+      pure .done
+    else do
+      -- 8. in the stack but not in scope: parse error, return
+      let inScope ← hasNodeInScope .default formatting
+      if !inScope then pure (if s.dev.aaaNotInScopeOther then .otherEndTag else .done)
+      else do
+        -- 9. not the current node: parse error (continue)
+        -- 10. furthest block
+        let below := s.stack.takeWhile (· != formatting)
+        match ← furthestBlockOf below with
+        | none => do
+          -- 11. pop up to and including the formatting element, remove it from the list, return
+          popUntilNode formatting
+          removeFromAfe formatting
+          pure .done
+        | some furthest => do
+          aaaRelocate formatting fname fattrs furthest            -- 12.–20.
+          pure .again
+
 /-- outer loop, steps 4–21.  Returns `true` when the caller must act as described in the "any
 other end tag" entry (step 6). -/
 def aaaOuter (subject : Str) : Nat → Nat → M Bool
   | 0, _ => outOfFuel "adoption-agency-outer"
   | fuel + 1, counter => do
-    if counter ≥ 8 then return false                              -- 4
-    let counter := counter + 1                                    -- 5
-    let s ← get
-    -- 6. formatting element: the last element in the list after the last marker with the tag name
-    let cand := (afterLastMarker s.afe).reverse.find? fun e =>
-      match e with
-      | .elem _ n _ => n == subject
-      | .marker => false
-    let (formatting, fname, fattrs) ← match cand with
-      | some (.elem n nm a) => pure (n, nm, a)
-      | _ => return true
-    -- 7. not in the stack: parse error, remove from the list, return
-    if !(s.stack.contains formatting) then
-      removeFromAfe formatting
-      return false
-    -- 8. in the stack but not in scope: parse error, return
-    if !(← hasNodeInScope .default formatting) then return s.dev.aaaNotInScopeOther
-    -- 9. not the current node: parse error (continue)
-    -- 10. furthest block
-    let below := s.stack.takeWhile (· != formatting)
-    match ← furthestBlockOf below with
-    | none =>
-      -- 11. pop up to and including the formatting element, remove it from the list, return
-      popUntilNode formatting
-      removeFromAfe formatting
-      return false
-    | some furthest =>
-      -- 12. common ancestor: the element immediately above the formatting element in the stack
-      let commonAncestor ← match ← aboveInStack formatting with
-        | some c => pure c
-        | none => fail "adoption-agency: no common ancestor"
-      -- 13. bookmark: position of the formatting element in the list (`none`)
-      -- 14. inner loop
-      let up ← match ← aboveInStack furthest with
-        | some u => pure u
-        | none => fail "adoption-agency: nothing above furthest block"
-      let (lastNode, bookmark) ←
-        aaaInner formatting furthest commonAncestor (s.stack.length + 2) 0 up furthest none
-      -- 15. insert last node at the appropriate place, with common ancestor as override target
-      let loc ← appropriatePlace (some commonAncestor)
-      insertNode loc.parent loc.before lastNode
-      -- 16. create an element for the token of the formatting element (intended parent: furthest block)
-      let el ← createElement .html fname (plainAttrs fattrs)
-      -- 17. move all children of furthest block to the new element
-      let kids := (← getNode furthest).children
-      for k in kids do appendNode el k
-      -- 18. append the new element to furthest block
-      appendNode furthest el
-      -- 19. remove the formatting element from the list, insert the new element at the bookmark
-      let s ← get
-      let newEntry := AfeEntry.elem el fname fattrs
-      let afe' :=
-        match bookmark with
-        | none =>
-          -- bookmark never moved: the position the formatting element had
-          s.afe.map fun e => if e.node? == some formatting then newEntry else e
-        | some after =>
-          let l := s.afe.filter fun e => e.node? != some formatting
-          if s.dev.aaaBookmarkStale then
-            -- NON-STANDARD (Dev): index computed before the removal, used after it
-            let pos := ((afeIndexOf s.afe after).getD 0) + 1
-            l.take pos ++ [newEntry] ++ l.drop pos
-          else l.flatMap fun e => if e.node? == some after then [e, newEntry] else [e]
-      -- 20. remove the formatting element from the stack, insert the new element immediately
-      -- below the position of furthest block
-      let stack' := (s.stack.filter (· != formatting)).flatMap fun x =>
-        if x == furthest then [el, x] else [x]
-      set { s with afe := afe', stack := stack' }
-      aaaOuter subject fuel counter                                -- 21
+    if counter ≥ 8 then pure false                                -- 4
+    else do
+      -- 5. increment the counter
+      match ← aaaIteration subject with
+      | .done => pure false
+      | .otherEndTag => pure true
+      | .again => aaaOuter subject fuel (counter + 1)             -- 21
 
 /-- the adoption agency algorithm for a token with tag name `subject` -/
 def adoptionAgency (subject : Str) : M Unit := do
   -- 2. current node is an HTML element with the tag name and is not in the list: pop, return
   let cur ← currentNode
-  if (← isHtml cur subject) && !(← inAfe cur) then
-    pop
-    return
-  -- 3. outer loop counter := 0
-  if ← aaaOuter subject 10 0 then anyOtherEndTag subject
+  let isSubject ← isHtml cur subject
+  let listed ← inAfe cur
+  if isSubject && !listed then pop
+  else do
+    -- 3. outer loop counter := 0
+    if ← aaaOuter subject 10 0 then anyOtherEndTag subject
 
 end H5.Spec.TC
